@@ -251,7 +251,28 @@ def classify(mod, mm, case, kf_entries):
 
 def apply_case(mod, ctx, case, kf_entries, record=True):
     """Run one case through the check's executor, register mismatches."""
-    res = mod.run_case(case, ctx)
+    try:
+        res = mod.run_case(case, ctx)
+    except HarnessError:
+        raise
+    except Exception as e:
+        # Safety net: an exception escaping the executor is a harness error (exit 2) -- unless it was
+        # raised from inside the code under test on a case of the property's domain; then it is the
+        # code under test that rejected / crashed on a valid input, which is a mismatch, not our bug.
+        tb = e.__traceback__
+        last = None
+        while tb is not None:
+            last = tb.tb_frame.f_code.co_filename
+            tb = tb.tb_next
+        under_test = os.path.realpath(REPO) + os.sep
+        deps = os.sep + "synced_collections" + os.sep
+        if last and (os.path.realpath(last).startswith(under_test) or deps in last):
+            res = {
+                "mismatches": [Mismatch("unhandled_exception_in_code_under_test", f"{type(e).__name__}: {str(e)[:200]} (raised in {os.path.relpath(last, REPO) if last.startswith(REPO) else last})")],
+                "classes": [], "nontrivial": False,
+            }
+        else:
+            raise
     mms = res if isinstance(res, list) else res.get("mismatches", [])
     info = {} if isinstance(res, list) else res
     if record:
